@@ -3,7 +3,7 @@ import functools
 
 import numpy as np
 
-from vlib import probe
+from vlib import gen, probe
 from vlib.probe import COL
 
 ID = "C17"
@@ -383,6 +383,7 @@ def run_case(case):
                     # the same table in other units (1e-14 .. 1e+12), starting at 0: the rule must scale with the interval
                     xt = (xt - xt[0]) * 10.0 ** float(rng.integers(-14, 13))
                 hist.append(["data", m, n])
+                xt, yt = gen.maybe_view(rng, xt), gen.maybe_view(rng, yt)
                 if rng.random() < .8:
                     probe.attempt(qg.integrate, xt, yt, npts=n)
                 elif n is not None:
